@@ -164,6 +164,12 @@ func (fx *fmtExtractor) emitTokenOf(in ssa.Instruction) (fmtTok, bool) {
 	if !ok {
 		return fmtTok{}, false
 	}
+	if fx.rawWrites && call.Call.IsInvoke() && call.Call.Method.Name() == "Write" && len(call.Call.Args) == 1 {
+		return fmtTok{"W", roleOf(fx.l, call.Call.Args[0], fx.recv, 0)}, true
+	}
+	if fx.rawWrites && call.Call.IsInvoke() && call.Call.Method.Name() == "WriteByte" && len(call.Call.Args) == 1 {
+		return fmtTok{"WB", roleOf(fx.l, call.Call.Args[0], fx.recv, 0)}, true
+	}
 	f := staticCallee(&call.Call)
 	if f == nil {
 		return fmtTok{}, false
@@ -300,9 +306,10 @@ func destRole(v ssa.Value, d int) string {
 }
 
 type fmtExtractor struct {
-	l      *Loaded
-	recv   string
-	decode bool
+	l         *Loaded
+	recv      string
+	decode    bool
+	rawWrites bool // also tokenise io.Writer.Write calls (for the byte-level primitives)
 	// condToken classifies a branch condition; returns token text for the
 	// true and false edges ("" = not interesting)
 	condToken func(cond ssa.Value, recv string) (string, string)
@@ -470,11 +477,15 @@ func leafCondToken(l *Loaded) func(cond ssa.Value, recv string) (string, string)
 
 // checkFormat compares extracted sequences with the pinned set.
 func checkFormat(c *Ctx, l *Loaded, rule, name string, fn *ssa.Function, decode bool, want []string) {
+	checkFormatX(c, l, rule, name, fn, decode, false, want)
+}
+
+func checkFormatX(c *Ctx, l *Loaded, rule, name string, fn *ssa.Function, decode, raw bool, want []string) {
 	if fn == nil {
 		c.anchorMissing(rule, name)
 		return
 	}
-	fx := &fmtExtractor{l: l, decode: decode, condToken: leafCondToken(l)}
+	fx := &fmtExtractor{l: l, decode: decode, rawWrites: raw, condToken: leafCondToken(l)}
 	got, trunc := fx.sequences(fn)
 	if trunc {
 		c.undecided(rule, name+" token sequences", l.pos(fn.Pos()), "path enumeration truncated")
